@@ -272,10 +272,35 @@ func checkC02(c *Ctx, r *Result, tier string) {
 
 	// ---- R02b finished notification under the zero test ----------------------------------------
 	n = 0
-	for fn := range decr {
-		posts := callSites(fn, func(name string, ci ssa.CallInstruction) bool {
+	// a post is PostEvent itself or a helper of the package that posts on every path and touches no lock
+	// (rm.postFinished())
+	isPost := func(name string, ci ssa.CallInstruction) bool {
+		if strings.HasSuffix(name, "pubsub.EventPump.PostEvent") {
+			return true
+		}
+		g := ci.Common().StaticCallee()
+		if g == nil || !c.inModule(g) || c.PkgOf(g) != "engine" || len(g.Blocks) == 0 {
+			return false
+		}
+		inner := callSites(g, func(name string, _ ssa.CallInstruction) bool {
 			return strings.HasSuffix(name, "pubsub.EventPump.PostEvent")
 		})
+		if len(inner) != 1 {
+			return false
+		}
+		always := true
+		allInstrs(g, func(in ssa.Instruction) {
+			if _, isRet := in.(*ssa.Return); isRet && in.Block() != g.Recover && !dominates(inner[0], in) {
+				always = false
+			}
+			if _, isLock := lockOpOf(in); isLock {
+				always = false
+			}
+		})
+		return always
+	}
+	for fn := range decr {
+		posts := callSites(fn, isPost)
 		key := c.FuncKey(fn)
 		if len(posts) == 0 {
 			// the bookkeeping may live in a helper that reports "this was the last one" to its
@@ -290,9 +315,7 @@ func checkC02(c *Ctx, r *Result, tier string) {
 					for _, site := range callSites(caller, func(_ string, ci ssa.CallInstruction) bool { return ci.Common().StaticCallee() == fn }) {
 						callers++
 						ckey := c.FuncKey(caller)
-						cposts := callSites(caller, func(name string, ci ssa.CallInstruction) bool {
-							return strings.HasSuffix(name, "pubsub.EventPump.PostEvent")
-						})
+						cposts := callSites(caller, isPost)
 						if len(cposts) == 0 {
 							r.Report(Finding{Rule: "R02b-post", Site: ckey + "#post", Pos: c.Pos(caller.Pos()),
 								Msg: ckey + " learns from " + key + " that the last monitor finished but never posts the finished notification"})
